@@ -444,4 +444,45 @@ Proof.
     assert (Tn * E0 <= Cn * Tn * E0) by nia. lia.
 Qed.
 
+(* ------------------------------------------------------------------------------------------------ *)
+(* the same accumulation for the dividing loop of to_decimal (printing): when the loop stops after j passes
+   the den is below the exact value / 10^j by less than 128 units of its last guard bit *)
+
+Lemma to_decimal_div_loop b texp tm tn bden : buf_ok C b -> f_zero b = false -> 100 <= texp <= 255 ->
+  exists e1 m1 j,
+    mbf_to_decimal_core_loop_103 1000 C b (c_lim_bot C) (c_lim_top C) (texp, tm, tn) bden (mbf_denormalise C b) 0
+      = Ok ((e1, m1, f_neg C b), j) /\
+    mbf_abs_gt_den C (e1, m1, f_neg C b) (texp, tm, tn) = false /\
+    den_norm C m1 /\ 0 <= j <= 62 /\
+    10 ^ j * m1 <= 256 * f_man C b * 2 ^ (f_exp b - e1) < 10 ^ j * m1 + 128 * 10 ^ j.
+Proof.
+  intros Hb Hz Ht. rewrite (denormalise_spec C b HC Hb).
+  pose proof (f_man_bound C b HC) as Hfm. pose proof (f_exp_bound C b HC Hb) as Hfe.
+  pose proof (mbits_ge C HC) as Hg. rewrite (pow2_pred (mbits C)) in Hfm by lia. fold (hb C) in Hfm.
+  unfold f_zero in Hz. apply Z.eqb_neq in Hz.
+  set (e0 := f_exp b) in *. set (m0 := 256 * f_man C b) in *. set (n0 := f_neg C b) in *.
+  set (Inv := fun (d : Z * Z * bool) (x : Z) => dinv e0 m0 n0 d x /\ (x = 0 \/ texp - 4 <= den_exp d)).
+  assert (Hstep : forall den x, Inv den x -> mbf_abs_gt_den C den (texp, tm, tn) = true ->
+            exists den', mbf_div10_den C den = Ok den' /\ Inv den' (x + 1) /\ den_exp den' <= den_exp den - 3).
+  { intros [[e m] n] x [HI _] Hgt. destruct (dinv_step e0 m0 n0 _ x HI) as (den' & Hd & HI').
+    exists den'. split; [exact Hd|]. pose proof HI as (Hn & _).
+    cbn [den_man fst snd] in Hn. destruct (div10_spec C HC Hten e m n Hn) as (e' & m' & Hd' & _ & Hcase).
+    rewrite Hd in Hd'. injection Hd' as ->. cbn [den_exp fst].
+    rewrite abs_gt_den_spec in Hgt.
+    assert (texp <= e) by (destruct (Z.ltb_spec texp e), (Z.eqb_spec texp e); cbn in Hgt; try discriminate; lia).
+    split; [split; [exact HI' | right; cbn [den_exp fst]; lia] | lia]. }
+  assert (HI0 : Inv (e0, m0, n0) 0).
+  { split; [|left; reflexivity]. unfold dinv, den_norm, m0. cbn [den_exp den_man den_neg fst snd].
+    rewrite Z.sub_diag. change (10 ^ 0) with 1. change (2 ^ 0) with 1.
+    assert (0 <= chi (256 * f_man C b)) by (unfold chi; destruct (409 * hb C <=? 256 * f_man C b); lia).
+    repeat split; try lia. intros _. nia. }
+  destruct (loop103_inv C texp Inv b (c_lim_bot C) (c_lim_top C) bden tm tn Hstep 90 1000 _ 0 ltac:(lia) HI0)
+    as (d1 & j & Hl & [HI1 Hlow] & Hgt1).
+  { cbn [den_exp fst]. lia. }
+  destruct d1 as [[e1 m1] n1]. pose proof HI1 as (Hn1 & Hs1 & Hj0 & HT1 & _). cbn [den_exp den_man den_neg fst snd] in *.
+  subst n1. exists e1, m1, j. split; [exact Hl|]. split; [exact Hgt1|]. split; [exact Hn1|].
+  assert (Hj : j <= 62) by (destruct Hlow as [->|Hlow]; lia).
+  split; [lia|]. destruct (dinv_final e0 m0 n0 e1 m1 n0 j HI1 Hj) as [H1 H2]. lia.
+Qed.
+
 End Accum.
